@@ -938,8 +938,9 @@ def _transform(
         sigma = kernel_params["sigma"]
 
         # sigma is specified by a single variance
-        if isinstance(sigma, (int, float)):
-            sigma = np.array([[sigma, 0.0], [0.0, sigma]], dtype=np.float64)
+        # (any scalar: Python or NumPy number, 0-d array)
+        if np.ndim(sigma) == 0:
+            sigma = np.array([[float(sigma), 0.0], [0.0, float(sigma)]], dtype=np.float64)
 
         if sigma[0][0] == sigma[1][1] and sigma[0][1] == 0.0:
             sigma = np.sqrt(sigma[0][0])
